@@ -31,7 +31,7 @@ pub open spec fn tuple_ok(t: (u32, u32, u32, u32, u32, u32), w: int, p1: int) ->
 }
 #[verifier::external_body]
 pub fn intermediate_tuple(internal_symbol_id: u32, lt_symbols: u32, systematic_index: u32, p1: u32) -> (r: (u32, u32, u32, u32, u32, u32))
-    requires lt_symbols >= 2, p1 >= 2,
+    requires lt_symbols >= 17, systematic_index <= 1000, p1 >= 11,     // exactly the precondition under which V-RNG proves it
     ensures r == tuple_of(internal_symbol_id as int, lt_symbols as int, systematic_index as int, p1 as int), tuple_ok(r, lt_symbols as int, p1 as int),
 { unimplemented!() }
 impl SymbolSlab {
@@ -57,7 +57,7 @@ impl SourceBlockDecoder {
          inline=[('src/constraint_matrix.rs', 'enc_indices')],
          attrs='#[verifier::exec_allows_no_decreases_clause]', isolate_loops=True,
          requires=['slab_wf(*intermediate_symbols)', 'old(dest)@.len() == intermediate_symbols.symbol_size',
-                   '1 <= params.pi_symbols && params.pi_symbols <= params.p1', '(%s) + (%s) < 0x8000_0000' % (W, P1), 'params.lt_symbols >= 2', 'params.p1 >= 2',
+                   '1 <= params.pi_symbols && params.pi_symbols <= params.p1', '(%s) + (%s) < 0x8000_0000' % (W, P1), 'params.lt_symbols >= 17', 'params.p1 >= 11', 'params.sys_index <= 1000',
                    'intermediate_symbols.count as int >= (%s) + (%s)' % (W, P)],
          ensures=['exists |idx: Seq<int>, ks: Seq<int>| #[trigger] enc_idx_ok(idx, ks, tuple_of(source_symbol_id as int, %s, params.sys_index as int, %s), %s, %s, %s)'
                   ' && final(dest)@ == acc(view(*intermediate_symbols), idx, (tuple_of(source_symbol_id as int, %s, params.sys_index as int, %s).0'
